@@ -14,6 +14,8 @@
 //	                       c:m:mode:write:digest:hexcontent   c:m:mode:load:digest   c:m:mode:ex:digest
 //	                       r:m:mode:write:key:d1.d2...        r:m:mode:load:key      r:m:mode:has:key
 //	                       reset:m                 (new process: fresh caching.Cas objects, empty exists- and stored-memo)
+//	                       lbreak:m:path  lfix:m:path   (local fault before any read: <path>'s directory is a regular file)
+//	                       lf=...                  (first op, ignored here: the model's list of local Set faults)
 //	                     answer: per op  class|A:<obs>|B:<obs>|R:<obs>  joined by tabs, obs = sorted
 //	                     path/key=hexcontent (target entries: path/key=r:d1.d2 decoded from the protobuf)
 //	store audit <cache dir> <algo>   offline audit of a cache directory, JSON on stdout
@@ -300,6 +302,23 @@ func (wd *world) doOp(op string) string {
 		wd.m[f[1]].reset()
 		return "ok"
 	}
+	if (f[0] == "lbreak" || f[0] == "lfix") && len(f) == 3 && wd.m[f[1]] != nil {
+		// a LOCAL storage fault that hits before anything is read: the directory of <path> in machine m's cache is replaced by
+		// a regular file (MkdirAll fails with ENOTDIR) -- only on a path that holds nothing yet; lfix undoes it
+		dir := filepath.Join(wd.m[f[1]].root, f[2])
+		if f[0] == "lfix" {
+			os.Remove(dir)
+			return "ok"
+		}
+		os.Remove(dir) // an empty directory, or nothing
+		if err := os.MkdirAll(filepath.Dir(dir), 0755); err != nil {
+			return "harness-error"
+		}
+		if err := os.WriteFile(dir, []byte("not a directory"), 0644); err != nil {
+			return "harness-error"
+		}
+		return "ok"
+	}
 	if len(f) < 5 {
 		return "bad-op"
 	}
@@ -379,6 +398,9 @@ func doCase(fields []string) string {
 	defer os.RemoveAll(wd.base)
 	var out []string
 	for _, op := range fields[2:] {
+		if strings.HasPrefix(op, "lf=") {
+			continue // the model's list of local faults: here they are made to happen (lbreak, a key below an existing entry)
+		}
 		cls := wd.doOp(op)
 		out = append(out, cls+"|A:"+obsDir(wd.m["A"].root)+"|B:"+obsDir(wd.m["B"].root)+"|R:"+wd.obsRemote())
 	}
